@@ -517,3 +517,56 @@ def _alts_eq(a, b):
             if p[0] != q[0] or not _alts_eq(p[2], q[2]):
                 return False
     return True
+
+
+def run_use(facts, rep):
+    """R-WIRE(use) [N]: every value a reader takes off the stream unconditionally (`let x = T::deserialize(stream)?`) is
+    used on every path that returns an object.  A field that is written, read back and then dropped on some path is lost
+    in the round trip on that path although writer, reader and size function agree on the bytes."""
+    from flow import Flow
+    R = "R-WIRE(use)"
+    rep.rule(R, "every value read from the stream by a `let` is used on every path of the reader that returns Ok")
+    n = 0
+    for key in sorted(triples(facts), key=repr):
+        g = triples(facts)[key]
+        p = g["r"]
+        body = facts.inlined(p, pred=facts.extracted_helper)
+        reads = {}
+        for x in walk(body):
+            if x.get("k") == "Let" and x["pat"].get("k") == "PBind" and "init" in x and not x["pat"]["name"].startswith("_"):
+                i0 = strip(x["init"])
+                while i0.get("k") == "Try":
+                    i0 = strip(i0["e"])
+                if leaf_kind(facts, i0, "r") is not None:
+                    reads[x["pat"]["lid"]] = x
+        if not reads:
+            continue
+        n += 1
+        rep.fn(p)
+
+        def transfer(nd, st):
+            k = nd.get("k")
+            if k == "Let" and nd["pat"].get("k") == "PBind" and nd["pat"]["lid"] in reads:
+                return st | frozenset([nd["pat"]["lid"]])
+            if k == "Path" and nd.get("res") == "local" and nd.get("lid") in st:
+                return st - frozenset([nd["lid"]])
+            if k == "Call" and nd.get("ctor", "").endswith("::Err"):
+                return frozenset()          # a refusing path owes nothing
+            return st
+
+        fl = Flow(facts, lambda a, b: a | b, transfer, closure_mode="maybe")
+        fl.run(body, frozenset())
+        left = set()
+        for st, node in fl.rets:
+            left |= set(st)
+        label = "%s::%s" % (key[2] if key[0] == "trait" else key[1], key[1].rsplit("::", 1)[-1] if key[0] == "trait" else key[2])
+        if left:
+            for lid in sorted(left):
+                x = reads[lid]
+                rep.violation(R, "%s/%s" % (label, x["pat"]["name"]), "the reader takes `%s` off the stream (line %s) but on some path "
+                              "that returns an object it is never used: the field the writer emitted is dropped on that path, so "
+                              "the restored object differs from the original" % (x["pat"]["name"], x.get("l")), facts.loc(p, x))
+        else:
+            rep.ok(R, label, "all %d value(s) read by `let` are used on every returning path" % len(reads), facts.loc(p),
+                   sample={"reader": p, "values": sorted(x["pat"]["name"] for x in reads.values())})
+    return n
